@@ -127,7 +127,7 @@ fn explain_sig(a: &Actual, r: &RefSig, d: &RefSig, eol_pre: bool, eol_clean: boo
     // a repeated option kind may repeat its value-derived quirk; nothing else may be duplicated
     let dups_ok = |x: &RefSig, allow_opt_plus: bool| -> bool {
         a.dup_quirks.iter().all(|q| {
-            (x.ambiguous_values && ["ts1-", "ts2+", "exws"].contains(&q.as_str())) || (allow_opt_plus && q == "opt+")
+            (x.ambiguous_values && ["ts1-", "ts2+", "exws"].contains(&q.as_str())) || (allow_opt_plus && q == "opt+") || (q == "exws" && x.olayout.iter().filter(|o| o.as_str() == "ws").count() > 1)
         })
     };
     if full(r) && dups_ok(r, false) {
@@ -665,7 +665,7 @@ pub fn spec() -> PropSpec {
         rule: "segments are generated from a header model (exhaustive per-field sweeps: flag bytes, TTLs, IPv4/IPv6 header bits, IP option lengths, all 65536 windows x MSS set x timestamps x IP version, all option sequences of <=4 options, every (kind,length) single option, MSS/scale/timestamp values; then seeded random headers), framed as Ethernet/raw IP/loopback, analysed by HuginnNetTcp through the packet path, and every reported field (version, ittl, olen, mss, window class, scale, option layout, quirk set without duplicates, payload class, role, MTU, link label) is compared with an independent reference computed from the model; a bucket is a distinct (role, IP version, option-kind layout, quirk set, window form, payload class)",
         assumptions: &[
             "window classification and the TTL distance rule are restated from the crate's documented rules (window_size.rs / ttl.rs doc comments and tests); C13 covers end-to-end faithfulness to the bundled p0f database",
-            "value fields (mss, scale, window class, MTU) are judged only when at most one MSS/WS/TS option with its standard length is present; for malformed option lists only the well-formed prefix and the `bad` quirk are required",
+            "value fields (mss, scale, window class, MTU) are judged when every MSS/WS/TS option has its standard length and the timestamp option is not repeated; a repeated MSS or window-scale option is judged by the option walk (last value wins, exws from any occurrence); for malformed option lists only the well-formed prefix and the `bad` quirk are required",
             "bytes after an EOL option are restricted to 0x00/0x01 in the judged domain",
             "quirks are compared as a set plus a no-duplicates rule; quirk order is exercised by C13",
             "IPv4 header lengths below 5 words and IPv6 extension headers are outside the judged domain (crash-only in C01)",
